@@ -3,37 +3,39 @@
 # Confirms a sub-agent's mutant in its scratch worktree /tmp/wt/<PROP> (clean HEAD of /repo):
 #   demo passes on the original, patch applies, demo fails with the patch, pinned suite passes with the patch.
 # On success copies patch, demo and a meta.json to /verif/seeded/<PROP>-m<k>/.
-P=$1; K=$2; WT=/tmp/wt/$P; OUT=$WT/_out
+P=$1; K=$2; WT=${WTROOT:-/tmp/wt}/$P; OUT=$WT/_out; DK=$((K+${KOFF:-0}))
 export GOFLAGS=-mod=mod GOPROXY=off GOSUMDB=off GOTOOLCHAIN=local; unset GOWORK
 cd $WT || exit 2
 git checkout -q -- . 
 DEMO=$(python3 -c "import json,re;d=re.sub(r'git apply [^&;]*(&&|;)','',json.load(open('$OUT/m$K.json'))['demo_cmd']);d=re.sub(r';\s*rm -f [^;&]*$','',d);print(d)")
 [ -n "$DEMO_OVERRIDE" ] && DEMO="$DEMO_OVERRIDE"
+export CGO_LDFLAGS_ALLOW='.*' CGO_CFLAGS_ALLOW='.*'
 RUNS=$(python3 -c "import json;print(json.load(open('$OUT/m$K.json')).get('demo_runs_in_sandbox'))")
+[ -n "$DEMO_OVERRIDE" ] && RUNS=True
 echo "== $P m$K demo_cmd: $DEMO"
 orig=skip; mut=skip; suite=skip
 if [ "$RUNS" = "True" ]; then
   if bash -c "$DEMO" >/tmp/seed_$P_$K.orig 2>&1; then orig=pass; else orig=fail; fi
 fi
-git clean -fdq -e _out
+git clean -fdq -e _out -e _rocksovl
 git apply $OUT/m$K.diff || { echo "patch does not apply"; exit 1; }
 if [ "$RUNS" = "True" ]; then
   if bash -c "$DEMO" >/tmp/seed_$P_$K.mut 2>&1; then mut=pass; else mut=fail; fi
 fi
-git clean -fdq -e _out   # the demonstration's own files are not part of the suite
+git clean -fdq -e _out -e _rocksovl   # the demonstration's own files are not part of the suite
 if go test -vet=off -count=1 ./client/ ./crypto/... ./gossip/ ./log/ ./storage/bplus/ ./testutils/spec/ >/tmp/seed_$P_$K.suite 2>&1; then suite=pass; else
   # gossip TestMessageQueue is flaky under load: retry once
   if go test -vet=off -count=1 ./client/ ./crypto/... ./gossip/ ./log/ ./storage/bplus/ ./testutils/spec/ >/tmp/seed_$P_$K.suite 2>&1; then suite=pass; else suite=fail; fi
 fi
 gofmt -l $(git diff --name-only) 2>&1 | sed 's/^/gofmt: /'
 git checkout -q -- .
-git clean -fdq -e _out
+git clean -fdq -e _out -e _rocksovl
 echo "   original: demo=$orig | mutant: demo=$mut suite=$suite"
 rm -f /tmp/seed_$P_$K.*
 ok=0
 if [ "$RUNS" = "True" ]; then [ $orig = pass ] && [ $mut = fail ] && [ $suite = pass ] && ok=1; else [ $suite = pass ] && ok=2; fi
 if [ $ok != 0 ]; then
-  D=/verif/seeded/$P-m$K; mkdir -p $D/demo
+  D=/verif/seeded/$P-m$DK; mkdir -p $D/demo
   cp $OUT/m$K.diff $D/patch.diff; cp -r $OUT/m${K}_demo/. $D/demo/
   python3 - "$OUT/m$K.json" "$D/meta.json" "$orig" "$mut" "$suite" "$ok" <<'PY'
 import json,sys
